@@ -128,7 +128,7 @@ def repeated_exh(tier, seed):
     rng = _r.Random(f'{seed}/repeated-exh')
     tables = list(itertools.product(range(8), repeat=4)) + list(itertools.product(range(8), repeat=3))
     if tier == 'quick':
-        tables = rng.sample(tables, 420)
+        tables = rng.sample(tables, 220)
     for k, t in enumerate(tables):
         rows = []
         for r in t:
@@ -139,7 +139,7 @@ def repeated_exh(tier, seed):
 def cases(tier, seed, spec):
     yield from gen.deep(tier, seed)
     yield from repeated_exh(tier, seed)
-    yield from gen.repeated(seed, 40 if tier == 'quick' else 400)
+    yield from gen.repeated(seed, 16 if tier == 'quick' else 400)
     yield from gen.biglat(tier)
     yield from gen.ctx_stream(tier, seed)
 
